@@ -272,6 +272,175 @@ fn hash(args: &[String]) {
     out.flush().unwrap();
 }
 
+// ---------------------------------------------------------------------------------------
+// C15(b): diagram-like texts by shape (spec/DiagramTrace.tla describes the shape space)
+
+const HEADERS: [(&str, &str); 17] = [
+    ("none", ""),
+    ("small_g", "7g"),
+    ("small_s", "12s"),
+    ("small_w", "3w"),
+    ("small_b", "4b"),
+    ("zero_g", "0g"),
+    ("lead_ws", "  \n 15s"),
+    ("max_usize", "18446744073709551615g"),
+    ("over_usize", "18446744073709551616g"),
+    ("digits23", "12345678901234567890123s"),
+    ("arabic_indic", "\u{663}g"),
+    ("fullwidth", "\u{ff10}\u{ff10}\u{ff12}g"),
+    ("plus", "+5g"),
+    ("minus", "-5g"),
+    ("bad_side", "5x"),
+    ("side_only", "g"),
+    ("upper_side", "5G"),
+];
+
+fn diagram_case(out: &mut impl Write, kind: &str, desc: &str, text: &str, intended: Option<&[u8; 64]>) {
+    stage("GameState::from_str");
+    let r = guarded(|| text.parse::<GameState>());
+    stage("");
+    let res = match r {
+        Err(p) => format!("\"out\":\"panic\",\"call\":{}", json_str(&p)),
+        Ok(Err(_)) => "\"out\":\"err\"".to_string(),
+        Ok(Ok(gs)) => match guarded(|| {
+            let c = cells(gs.piece_board());
+            let play = gs.is_play_phase();
+            let (st, hl, ppn) = if play {
+                let p = gs.unwrap_play_phase();
+                (gs.current_step(), p.hash_history().len(), matches!(p.push_pull_state(), PushPullState::None))
+            } else {
+                (0, 0, true)
+            };
+            // a parsed state must also be usable: list its actions, print it
+            stage("valid_actions (parsed state)");
+            let n = gs.valid_actions().len();
+            stage("to_string (parsed state)");
+            let _ = gs.to_string();
+            stage("is_terminal (parsed state)");
+            let _ = gs.is_terminal();
+            format!(
+                "\"out\":\"ok\",\"b\":[{}],\"s\":{},\"mn\":\"{}\",\"st\":{},\"hl\":{},\"ppn\":{},\"ph\":{},\"nact\":{}",
+                c.iter().map(|x| x.to_string()).collect::<Vec<_>>().join(","),
+                if gs.is_p1_turn_to_move() { 1 } else { 2 },
+                gs.move_number(),
+                st,
+                hl,
+                if ppn { 1 } else { 0 },
+                if play { 1 } else { 0 },
+                n
+            )
+        }) {
+            Ok(f) => f,
+            Err(p) => format!("\"out\":\"panic\",\"call\":{}", json_str(&p)),
+        },
+    };
+    let cj = match intended {
+        Some(c) => format!("[{}]", c.iter().map(|x| x.to_string()).collect::<Vec<_>>().join(",")),
+        None => "[]".to_string(),
+    };
+    writeln!(out, "{{\"k\":\"{}\",{},\"cells\":{},\"txt\":{},{}}}", kind, desc, cj, json_str(text), res).unwrap();
+}
+
+fn diagram(args: &[String]) {
+    let seed: u64 = args[0].parse().unwrap();
+    let nmut: usize = args[1].parse().unwrap();
+    let mut out = std::io::BufWriter::new(std::fs::File::create(&args[2]).unwrap());
+    let mut rng = Rng::new(seed);
+    let letters = [' ', 'R', 'C', 'D', 'H', 'M', 'E', 'r', 'c', 'd', 'h', 'm', 'e'];
+    let row_counts = [0usize, 1, 2, 7, 8, 9, 10, 16, 33];
+    let col_counts = [0usize, 1, 7, 8, 9, 16, 99]; // 99 = ragged
+    let cell_classes = ["pieces", "empty", "junk", "multibyte", "allpieces"];
+    let trails = [("none", ""), ("bar", "|"), ("bar_piece", "|R"), ("extra_row", "| R r |"), ("text", "hello")];
+    let mut n = 0usize;
+    for (hname, htxt) in HEADERS.iter() {
+        for &nrows in row_counts.iter() {
+            for &ncols in col_counts.iter() {
+                for cc in cell_classes.iter() {
+                    for (tname, ttxt) in trails.iter() {
+                        // thin out the product: every pair of factors occurs, the full product only near the well-formed shape
+                        let near = (nrows == 8 || nrows == 9) && (ncols == 8 || ncols == 9);
+                        if !near && !(rng.chance(0.12)) && !(*hname == "none" && *tname == "none") && !(*cc == "pieces" && *tname == "none" && ncols == 8) {
+                            continue;
+                        }
+                        let base = positions::random_position(&mut rng, 6 + (n % 20));
+                        let mut cells_used = [0u8; 64];
+                        let mut text = String::new();
+                        text.push_str(htxt);
+                        text.push_str("\n +-----------------+\n");
+                        for r in 0..nrows {
+                            text.push_str(&format!("{}|", if r < 8 { 8 - r } else { 0 }));
+                            let cols = if ncols == 99 { [0usize, 3, 8, 12, 8, 1, 9, 8][r % 8] } else { ncols };
+                            for f in 0..cols {
+                                let v = if r < 8 && f < 8 { base[r * 8 + f] } else { base[(r * 8 + f) % 64] };
+                                let ch: String = match *cc {
+                                    "pieces" => {
+                                        let idx = r * 8 + f;
+                                        if v == 0 && (idx == 18 || idx == 21 || idx == 42 || idx == 45) { "x".to_string() } else { letters[v as usize].to_string() }
+                                    }
+                                    "empty" => " ".to_string(),
+                                    "junk" => ["?", "z", "1", "-", "X"][rng.below(5)].to_string(),
+                                    "multibyte" => ["\u{e9}", "\u{20ac}", "\u{1f600}", "R", "e"][rng.below(5)].to_string(),
+                                    _ => letters[1 + rng.below(12)].to_string(),
+                                };
+                                if r < 8 && f < 8 && (*cc == "pieces") {
+                                    cells_used[r * 8 + f] = v;
+                                }
+                                text.push(' ');
+                                text.push_str(&ch);
+                            }
+                            text.push_str(" |\n");
+                        }
+                        text.push_str(" +-----------------+\n   a b c d e f g h\n");
+                        text.push_str(ttxt);
+                        let desc = format!(
+                            "\"hdr\":\"{}\",\"nrows\":{},\"ncols\":{},\"cc\":\"{}\",\"trail\":\"{}\"",
+                            hname, nrows, ncols, cc, tname
+                        );
+                        diagram_case(&mut out, "shape", &desc, &text, Some(&cells_used));
+                        n += 1;
+                    }
+                }
+            }
+        }
+    }
+    // beyond the grammar: random character-level mutations of printed diagrams
+    let pool: Vec<char> = "|\n +-x12890gswbRCDHMErcdhme\u{e9}\u{20ac}\u{663}\u{ff11}\u{1f600}\t".chars().collect();
+    for i in 0..nmut {
+        let np = 2 + rng.below(30);
+        let c = positions::random_position(&mut rng, np);
+        let mut chars: Vec<char> = diagram_of_cells(&c, rng.chance(0.5), 1 + rng.below(200)).chars().collect();
+        for _ in 0..(1 + rng.below(6)) {
+            let at = rng.below(chars.len().max(1));
+            match rng.below(4) {
+                0 => {
+                    if !chars.is_empty() {
+                        chars[at] = *rng.pick(&pool);
+                    }
+                }
+                1 => chars.insert(at, *rng.pick(&pool)),
+                2 => {
+                    if !chars.is_empty() {
+                        chars.remove(at);
+                    }
+                }
+                _ => {
+                    // duplicate a slice (extra rows / columns)
+                    let len = 1 + rng.below(40);
+                    let end = (at + len).min(chars.len());
+                    let slice: Vec<char> = chars[at..end].to_vec();
+                    for (j, ch) in slice.into_iter().enumerate() {
+                        chars.insert(at + j, ch);
+                    }
+                }
+            }
+        }
+        let text: String = chars.into_iter().collect();
+        diagram_case(&mut out, "mut", &format!("\"n\":{}", i), &text, None);
+    }
+    writeln!(out, "{{\"k\":\"done\",\"shapes\":{},\"muts\":{}}}", n, nmut).unwrap();
+    out.flush().unwrap();
+}
+
 fn main() {
     let args: Vec<String> = std::env::args().collect();
     silence_panics();
@@ -282,6 +451,7 @@ fn main() {
     match args[1].as_str() {
         "notation" => notation(&args[2..]),
         "hash" => hash(&args[2..]),
+        "diagram" => diagram(&args[2..]),
         x => {
             eprintln!("unknown probe family {}", x);
             std::process::exit(2);
